@@ -1,6 +1,6 @@
 (* Proofs for Misc/PanicsStrvals.v *)
 From Coq Require Import List String Ascii Bool Arith ZArith Lia.
-From Helm Require Import Values.Tree Values.Strvals Misc.Panics Misc.PanicsStrvals.
+From Helm Require Import Values.Tree Misc.PanicsStrvalsLex Misc.Panics Misc.PanicsStrvals.
 Import ListNotations.
 Local Open Scope string_scope.
 
